@@ -14,6 +14,7 @@ import (
 	"github.com/brewlin/net-protocol/protocol/network/ipv4"
 	"github.com/brewlin/net-protocol/protocol/network/ipv6"
 	"github.com/brewlin/net-protocol/protocol/transport/tcp"
+	"github.com/brewlin/net-protocol/stack"
 	"verifh/fw"
 	"verifh/rfc"
 	"verifh/wire"
@@ -34,6 +35,12 @@ type DropRule struct {
 	Times int    `json:"times"`
 }
 
+// DelayRule holds back the first transmission of the packet identified by Key.
+type DelayRule struct {
+	Key string `json:"key"`
+	Ms  int    `json:"ms"`
+}
+
 type Scenario struct {
 	K         int      `json:"k"`
 	Seed      uint64   `json:"seed"`
@@ -51,10 +58,12 @@ type Scenario struct {
 	PauseMs   [2]int   `json:"reader_pause_ms"`
 	Faults    [2]FaultCfg `json:"faults"`
 	Drops     []DropRule  `json:"drops"`
+	Delays    []DelayRule `json:"delays,omitempty"`
 	ISS       *uint32  `json:"iss_active"`
 	PassiveISS *uint32 `json:"iss_passive"`
 	Close     string   `json:"close"` // order of write-side shutdowns: "AB", "BA", "sim", "A-then-data"
 	DeadlineS int      `json:"deadline_s"`
+	Probe     bool     `json:"probe,omitempty"` // record the sender state seen by the stack's TCP probe
 }
 
 type DirStats struct {
@@ -85,6 +94,14 @@ type Result struct {
 	Frames      int
 	FrameErrs   []string
 	Errors      [2]string // explicit endpoint errors (ErrorOption / hard errors)
+	// window bookkeeping per data direction d (sender = endpoint d): the window field of
+	// the last segment the receiver emitted, whether that segment was dropped by the
+	// fault plan, and the window field of the last segment actually delivered to the sender
+	LastWndEmitted   [2]int
+	LastWndDropped   [2]bool
+	LastWndDelivered [2]int
+	StillActive      bool // packets were still flowing shortly before the deadline (slow, not stalled)
+	LastSender       [2]string // last sender state reported by the TCP probe of host d (diagnosis only)
 }
 
 // Payload byte at offset i of direction d.
@@ -145,6 +162,7 @@ type Obs struct {
 	lastTx    time.Duration
 	st        *DirStats
 	dropLeft  map[string]int
+	delayMs   map[string]int
 	expect    int64 // next in-order relative seq at delivery
 }
 
@@ -221,6 +239,18 @@ func Run(sc *Scenario, frameCheck func(dir int, f *wire.Frame) string) Result {
 		return snapshot()
 	}
 	defer topo.Close()
+	if sc.Probe {
+		for i, h := range []*wire.Host{topo.A, topo.B} {
+			i := i
+			h.S.AddTCPProbe(func(st stack.TCPEndpointState) {
+				x := st.Sender
+				m := fmt.Sprintf("una=%d nxt=%d cwnd=%d ssthresh=%d outstanding=%d sndwnd=%d dupack=%d fr=%v[%d,%d] rto=%v closed=%v maxpayload=%d rcvnxt=%d", uint32(x.SndUna), uint32(x.SndNxt), x.SndCwnd, x.Ssthresh, x.Outstanding, x.SndWnd, x.DupAckCount, x.FastRecovery.Active, uint32(x.FastRecovery.First), uint32(x.FastRecovery.Last), x.RTO, x.Closed, x.MaxPayloadSize, uint32(st.Receiver.RcvNxt))
+				resMu.Lock()
+				res.LastSender[i] = m
+				resMu.Unlock()
+			})
+		}
+	}
 	t0 := time.Now()
 	obs := [2]*Obs{{mu: &omu, seen: map[string]int{}, dropLeft: map[string]int{}, st: &res.Dir[0]}, {mu: &omu, seen: map[string]int{}, dropLeft: map[string]int{}, st: &res.Dir[1]}}
 	for _, d := range sc.Drops {
@@ -228,14 +258,21 @@ func Run(sc *Scenario, frameCheck func(dir int, f *wire.Frame) string) Result {
 		fmt.Sscanf(d.Key, "%d|", &dir)
 		obs[dir].dropLeft[d.Key] = d.Times
 	}
+	for _, d := range sc.Delays {
+		var dir int
+		fmt.Sscanf(d.Key, "%d|", &dir)
+		if obs[dir].delayMs == nil {
+			obs[dir].delayMs = map[string]int{}
+		}
+		obs[dir].delayMs[d.Key] = d.Ms
+	}
 	var burstLeft [2]int
 	faultRng := [2]*fw.Rand{rng.Split("faults", 0), rng.Split("faults", 1)}
 	writerRng := [2]*fw.Rand{rng.Split("writer", 0), rng.Split("writer", 1)}
 	mkDecide := func(dir int) func(f *wire.Frame) wire.Action {
 		fr := faultRng[dir]
 		fc := sc.Faults[dir]
-		return func(f *wire.Frame) wire.Action {
-			var a wire.Action
+		return func(f *wire.Frame) (a wire.Action) {
 			o := obs[dir]
 			o.mu.Lock()
 			defer o.mu.Unlock()
@@ -259,6 +296,13 @@ func Run(sc *Scenario, frameCheck func(dir int, f *wire.Frame) string) Result {
 			}
 			rel := int64(t.Seq - o.iss)
 			n := len(t.Payload)
+			wndDir := 1 - dir
+			defer func() {
+				resMu.Lock()
+				res.LastWndEmitted[wndDir] = int(t.Window)
+				res.LastWndDropped[wndDir] = a.Drop
+				resMu.Unlock()
+			}()
 			key := ""
 			if n > 0 || t.Flags&(rfc.SYN|rfc.FIN|rfc.RST) != 0 {
 				key = fmt.Sprintf("%d|%s|%d|%d", dir, flagStr(t.Flags&^rfc.ACK), rel, n)
@@ -290,6 +334,10 @@ func Run(sc *Scenario, frameCheck func(dir int, f *wire.Frame) string) Result {
 			if left := o.dropLeft[key]; left > 0 {
 				o.dropLeft[key] = left - 1
 				a.Drop = true
+				return a
+			}
+			if ms, ok := o.delayMs[key]; ok && o.seen[key] == 1 {
+				a.Delay = time.Duration(ms) * time.Millisecond
 				return a
 			}
 			if burstLeft[dir] > 0 {
@@ -325,6 +373,11 @@ func Run(sc *Scenario, frameCheck func(dir int, f *wire.Frame) string) Result {
 	mkDeliver := func(dir int) func(f *wire.Frame) {
 		return func(f *wire.Frame) {
 			t, err := DecodeTCP(f.Proto, f.Data)
+			if err == nil && t != nil {
+				resMu.Lock()
+				res.LastWndDelivered[1-dir] = int(t.Window)
+				resMu.Unlock()
+			}
 			if err != nil || t == nil || len(t.Payload) == 0 {
 				return
 			}
@@ -699,16 +752,41 @@ func Run(sc *Scenario, frameCheck func(dir int, f *wire.Frame) string) Result {
 	}
 	res.Virtual = time.Since(t0)
 	// explicit errors
+	resMu.Lock()
+	for d := 0; d < 2; d++ {
+		res.Dir[d].Offered = atomic.LoadInt64(&offered[d])
+	}
 	for i, x := range eps {
 		if e := x.e.GetSockOpt(tcpip.ErrorOption{}); e != nil {
 			res.Errors[i] = e.String()
 		}
+		// an endpoint whose connection was aborted (e.g. retransmission give-up) reports
+		// its hard error from Write/Read, not from ErrorOption
+		if _, _, e := x.e.Write(tcpip.SlicePayload(nil), tcpip.WriteOptions{}); e != nil && e != tcpip.ErrClosedForSend && e != tcpip.ErrWouldBlock && res.Errors[i] == "" {
+			res.Errors[i] = e.String()
+		}
 	}
+	resMu.Unlock()
 	resMu.Lock()
 	complete := res.Dir[0].EOF && res.Dir[1].EOF && res.Dir[0].Read == int64(sc.Bytes[0]) && res.Dir[1].Read == int64(sc.Bytes[1])
 	failed := res.Errors[0] != "" || res.Errors[1] != "" || res.Dir[0].ReadErr != "" || res.Dir[1].ReadErr != "" || res.Dir[0].WriteErr != "" || res.Dir[1].WriteErr != ""
 	res.Stalled = !complete && !failed
 	resMu.Unlock()
+	if res.Stalled {
+		// still exchanging packets close to the deadline: slow, not quiet
+		omu.Lock()
+		last := obs[0].lastTx
+		if obs[1].lastTx > last {
+			last = obs[1].lastTx
+		}
+		omu.Unlock()
+		if time.Since(t0)-last < 6*time.Minute {
+			resMu.Lock()
+			res.Stalled = false
+			res.StillActive = true
+			resMu.Unlock()
+		}
+	}
 	if complete && !failed {
 		// let the closing exchange finish, then look at the closed-state observables
 		time.Sleep(10 * time.Second)
